@@ -132,6 +132,7 @@ type Exec struct {
 	timers     []time.Time
 	faults     []*Fault
 	free       atomic.Bool
+	fine       atomic.Bool // function entries of the code under test are scheduling points too (FinePoint)
 	bodyDone   atomic.Bool
 	t0         time.Time
 	lastLid    int
@@ -246,6 +247,21 @@ func Point(site string) {
 	}
 	x.park(&parked{site: site, kind: KPoint})
 }
+
+// FinePoint is the scheduling point the rewriter puts at the entry of every function of the code under test (and of
+// a few library entry points that consume caller-owned arguments). It is inert unless the execution asked for
+// fine-grained preemption (SetFine): then a goroutine can be preempted between any two calls, which exposes
+// read-modify-write sequences on shared data that involve no lock, channel or atomic operation at all.
+func FinePoint(site string) {
+	x := cur.Load()
+	if x == nil || !x.fine.Load() {
+		return
+	}
+	x.park(&parked{site: site, kind: KPoint})
+}
+
+// SetFine switches fine-grained preemption points on or off for this execution.
+func (x *Exec) SetFine(on bool) { x.fine.Store(on) }
 
 // PointLock parks before acquiring a lock described by ls.
 func PointLock(site string, ls *LockState, read bool) {
